@@ -59,22 +59,18 @@ Definition expected (s : status) (th : Z) : Z * werr :=
   else if longest s th <=? 0 then (0, NoErr)
   else (capped (longest s th), first_with s th (capped (longest s th)) (stamps s)).
 
-(* ---- the verdict on an answer (wait, error) of SyncedToEmit, for every threshold > MinInt64.
-   th >= 0: the answer must be [expected].
-   th <  0 (a threshold that lets stamps lie in the future; not a meaningful configuration): the
-   decision must be exact, the wait positive and at most the capped longest remaining time, and equal
-   to it unless some stamp is more than 2^63 ns ahead of now (then Time.Sub has already lost the
-   distance and the wait is only a lower bound, see design-notes/C21.md). *)
+(* ---- the verdict on an answer (wait, error) of SyncedToEmit: the literal property, for EVERY
+   threshold: the answer must be [expected] (exact integers; nothing here follows the saturating
+   arithmetic of the code).
+   One place where [expected] follows the code rather than the property's wording: without a peer /
+   before P2P sync has finished the code returns wait 0 with the error; the property's "positive wait
+   equal to the longest remaining time" has no referent there (no stamp needs to be waited for), see
+   `partial` in checks/C21.json. *)
 Definition werr_eqb (a b : werr) : bool := werr_code a =? werr_code b.
 Definition answer_ok (s : status) (th : Z) (a : Z * werr) : bool :=
-  if 0 <=? th then (fst a =? fst (expected s th)) && werr_eqb (snd a) (snd (expected s th))
-  else
-    Bool.eqb (werr_eqb (snd a) NoErr) (may_emit_b s th) &&
-    (if (peers s =? 0) then (fst a =? 0) && werr_eqb (snd a) ErrNoConnections
-     else if (ns (synced s) =? 0) then (fst a =? 0) && werr_eqb (snd a) ErrP2PSyncOngoing
-     else if werr_eqb (snd a) NoErr then fst a =? 0
-     else (0 <? fst a) && (fst a <=? capped (longest s th)) &&
-          (if forallb (fun t => min64 <=? elapsed s t) (five s)
-           then (fst a =? capped (longest s th))
-                && werr_eqb (snd a) (first_with s th (capped (longest s th)) (stamps s))
-           else true)).
+  (fst a =? fst (expected s th)) && werr_eqb (snd a) (snd (expected s th)).
+
+(* some stamp is more than 2^63 ns ahead of now: Time.Sub saturates at MinInt64 and the exact distance
+   is lost to the code *)
+Definition saturated_b (s : status) : bool :=
+  negb (forallb (fun t => min64 <=? elapsed s t) (five s)).
